@@ -108,14 +108,35 @@ type recMatcher struct {
 	names map[string]int
 	calls *int64
 	rng   *Rng
+	fac   *recFactory
 }
 
-func (m *recMatcher) FindSubmatchIndex(b []byte) []int {
+// a panic of the matcher under test happens on a worker goroutine and would take the whole harness
+// down; it is recorded (first one wins) and reported as the outcome of this case, with its input
+func (m *recMatcher) FindSubmatchIndex(b []byte) (ix []int) {
 	atomic.AddInt64(m.calls, 1)
 	if m.rng != nil && m.rng.Chance(1, 40) {
 		runtime.Gosched()
 	}
-	return m.inner(b)
+	defer func() {
+		if e := recover(); e != nil {
+			m.fac.mu.Lock()
+			if m.fac.panicNote == "" {
+				m.fac.panicNote = fmt.Sprintf("matcher panicked on line %q: %v", b, e)
+			}
+			m.fac.mu.Unlock()
+			ix = nil
+		}
+	}()
+	ix = m.inner(b)
+	for i := 0; i+1 < len(ix); i += 2 {
+		lo, hi := ix[i], ix[i+1]
+		if !(lo == -1 && hi == -1) && !(0 <= lo && lo <= hi && hi <= len(b)) {
+			// indices outside the line would crash the worker goroutine in BuildKey: record and drop the match
+			panic(fmt.Sprintf("indices %v outside the line (length %d)", ix, len(b)))
+		}
+	}
+	return ix
 }
 func (m *recMatcher) SubexpNameTable() map[string]int { return m.names }
 
@@ -125,6 +146,8 @@ type recFactory struct {
 	mu    sync.Mutex
 	seed  uint64
 	n     uint64
+
+	panicNote string
 }
 
 func (f *recFactory) CreateInstance() matchers.Matcher {
@@ -133,7 +156,7 @@ func (f *recFactory) CreateInstance() matchers.Matcher {
 	f.n++
 	r := NewRng(f.seed + f.n)
 	f.mu.Unlock()
-	return &recMatcher{inner: fn, names: names, calls: &f.calls, rng: r}
+	return &recMatcher{inner: fn, names: names, calls: &f.calls, rng: r, fac: f}
 }
 
 // Oracle returns, independently of the pipeline, the index list the selected matcher yields for a
@@ -177,6 +200,15 @@ func factoryFor(kind string, seed uint64) (*recFactory, error) {
 			inst := c.CreateInstance()
 			return inst.FindSubmatchIndex, inst.SubexpNameTable()
 		}}, nil
+	case len(kind) > 9 && kind[:9] == "dissecti:": // --ignore-case
+		d, err := dissect.CompileEx(kind[9:], true)
+		if err != nil {
+			return nil, err
+		}
+		return &recFactory{seed: seed, mk: func() (func(b []byte) []int, map[string]int) {
+			inst := d.CreateInstance()
+			return inst.FindSubmatchIndex, inst.SubexpNameTable()
+		}}, nil
 	case len(kind) > 8 && kind[:8] == "dissect:":
 		d, err := dissect.Compile(kind[8:])
 		if err != nil {
@@ -196,6 +228,10 @@ var DissectOracles = map[string]string{
 	"dissect:%{a} %{b}":      `^(?P<a>[^ ]*) (?P<b>.*)$`,
 	"dissect:k=%{v};":        `k=(?P<v>[^;]*);`,
 	"dissect:%{a}:%{b}:%{c}": `^(?P<a>[^:]*):(?P<b>[^:]*):(?P<c>.*)$`,
+	// --ignore-case folds ASCII letters only (documented in pkg/matchers/dissect/case.go): explicit classes,
+	// not (?i), whose Unicode folding would also accept the Kelvin sign for k and the long s for s
+	"dissecti:k=%{v};":              `[kK]=(?P<v>[^;]*);`,
+	"dissecti:ID=%{id} user=%{u};": `[iI][dD]=(?P<id>.*?) [uU][sS][eE][rR]=(?P<u>.*?);`,
 }
 
 // ---------- scripted reader ----------
@@ -398,6 +434,12 @@ func run(cfg Config, sources []Source, dir string) Result {
 		res.ReadErr = append(res.ReadErr, rd.failed)
 	}
 	res.Completed = true
+	fac.mu.Lock()
+	if fac.panicNote != "" {
+		res.Completed = false
+		res.Note = fac.panicNote
+	}
+	fac.mu.Unlock()
 	return res
 }
 
